@@ -105,6 +105,8 @@ func run(c *props.Ctx) {
 	c.R.Floor("FAM-1", 5)
 	perm1(c)
 	attr1(c, fns)
+	short1(c)
+	round1(c)
 
 	if len(p.Controls) > 0 {
 		for _, n := range []string{"verifControlShapeBadAttr", "verifControlShapeBadIndex", "verifControlShapeBadParam", "verifControlShapeBadRecv", "verifControlShapeBadCond"} {
